@@ -6,7 +6,7 @@ import vlib
 
 ASSUME = [
     "real event_reader.cc / event.cc / particle.cc; the input files are a token-stream model (harness/e3/c11_reader.cpp): a token carries its value exactly, i.e. decimal formatting/parsing of libstdc++ is abstracted (the 15-significant-digit clause is outside this check)",
-    "bounds: <= 3 files, <= MAXR records per file (empty files included), <= 1 particle per record, start/max in [-1, MAXW], NSTEPS interleaved has_next/load calls",
+    "bounds: <= 3 files, <= MAXR records per file (empty files included), <= 1 particle per record, start/max in [-1, MAXW], NSTEPS interleaved has_next/load calls; quick: (NSTEPS, MAXR, MAXW) = (4, 1, 4) for 1..3 files; thorough: 1 file (5, 2, 6), 2 files (5, 2, 5), 3 files (5, 1, 4) and (4, 2, 4)",
     "round trip event::store -> reader: harness c11_roundtrip (token recorder) when built",
 ]
 
@@ -19,9 +19,13 @@ def run(tier, seed):
     hs = vlib.E3H + "/c11_reader.cpp"
     if tier == "quick":
         par = ["NSTEPS=4", "MAXR=1", "MAXW=4"]
+        jobs = [("files%d" % nf, par + ["NFILES=%d" % nf]) for nf in (1, 2, 3)]
     else:
-        par = ["NSTEPS=5", "MAXR=2", "MAXW=6"]
-    jobs = [("files%d" % nf, par + ["NFILES=%d" % nf]) for nf in (1, 2, 3)] + [("witness", ["NSTEPS=1", "MAXR=1", "MAXW=1", "NFILES=1", "WITNESS"])]
+        # measured (16 cores busy): 1 file (5 calls, <= 2 records, window <= 6) 11 s; 2 files (5, 2, 5) 4 min; 3 files (5, 1, 4) 1.5 min and (4, 2, 4) 22 min;
+        # 3 files with (5, 2, 6) does not finish in 50 min and is outside the bound
+        jobs = [("files1", ["NSTEPS=5", "MAXR=2", "MAXW=6", "NFILES=1"]), ("files2", ["NSTEPS=5", "MAXR=2", "MAXW=5", "NFILES=2"]),
+                ("files3", ["NSTEPS=5", "MAXR=1", "MAXW=4", "NFILES=3"]), ("files3_two_records", ["NSTEPS=4", "MAXR=2", "MAXW=4", "NFILES=3"])]
+    jobs = jobs + [("witness", ["NSTEPS=1", "MAXR=1", "MAXW=1", "NFILES=1", "WITNESS"])]
     mods = vlib.parallel(jobs, lambda j: vlib.irx_link(wd, j[0], lls, hs, j[1]))
     res = vlib.irx_run(mods, K=64, timeout=3000, extra=["--max-paths", "400000"])
     wit, res = res[-1], res[:-1]
